@@ -196,6 +196,25 @@ func c14Docs(c *fx.Ctx, visit func(doc []ev.E, family string)) {
 		}
 		ms = append(ms, ev.EEnd())
 		visit(hdr(ms...), "markers-map")
+		// nested: a marked container inside a marked container ... k levels, innermost a marked scalar; and nested + siblings
+		if k >= 1 {
+			var ns []ev.E
+			for i := 0; i < k-1; i++ {
+				ns = append(ns, ev.EMarker(fmt.Sprintf("n%d", i)), ev.EList())
+			}
+			ns = append(ns, ev.EMarker("leaf"), ev.EPInt(1))
+			for i := 0; i < k-1; i++ {
+				ns = append(ns, ev.EEnd())
+			}
+			visit(hdr(ns...), "markers-nested")
+			var mx []ev.E
+			mx = append(mx, ev.EMarker("outer"), ev.EMap())
+			for i := 0; i < k-1; i++ {
+				mx = append(mx, ev.EStr(fmt.Sprintf("k%d", i)), ev.EMarker(fmt.Sprintf("in%d", i)), ev.EList(), ev.ERef("outer"), ev.EEnd())
+			}
+			mx = append(mx, ev.EEnd())
+			visit(hdr(mx...), "markers-nested-siblings")
+		}
 	}
 	for n := 0; n <= 5; n++ {
 		var es []ev.E
